@@ -763,6 +763,9 @@ func runC07(cx *CheckCtx) {
 		cx.count("update_methods", 1)
 	}
 	cx.floor("update_methods", 3)
+	// "the candidate set is exactly what the calls imply" as read back: the legacy listing collects every
+	// scanned candidate record (a record is not left out because the node also has a structured one)
+	checkCollectEveryIn(cx, map[string][]string{"netmap": {"NetmapCandidates"}}, 1)
 	// single emitters / writers over all methods
 	addFn := cx.locate(nmPkg, "addToNetmap", "emits AddPeerSuccess", func(f *ssa.Function) bool { return notifiesDirect(f, "AddPeerSuccess") })
 	if c := cx.contract("netmap"); c != nil {
